@@ -78,6 +78,13 @@ func c09Run(c fw.Case) fw.Verdict {
 		}
 		return 0
 	}
+	// in every second case the first two databases have the SAME name (their types, hence their addresses, differ)
+	dbName := func(i int) string {
+		if c.Idx%2 == 1 && i < 2 {
+			return "c09-same"
+		}
+		return fmt.Sprintf("c09-%d", i)
+	}
 	var dbs []*DB
 	for i := 0; i < nd; i++ {
 		var wl []string
@@ -95,7 +102,7 @@ func c09Run(c fw.Case) fw.Verdict {
 		}
 		var db *DB
 		if shared {
-			db, err = e.CreateDB(fmt.Sprintf("c09-%d", i), storeTypes[(i+c.Idx)%3], creator, nil, wl)
+			db, err = e.CreateDB(dbName(i), storeTypes[(i+c.Idx)%3], creator, nil, wl)
 			if err == nil {
 				octx, ocancel := context.WithTimeout(bg, 20*time.Second)
 				var so iface.Store
@@ -110,7 +117,7 @@ func c09Run(c fw.Case) fw.Verdict {
 				}
 			}
 		} else {
-			db, err = e.CreateDB(fmt.Sprintf("c09-%d", i), storeTypes[(i+c.Idx)%3], creator, []*sim.Peer{other}, wl)
+			db, err = e.CreateDB(dbName(i), storeTypes[(i+c.Idx)%3], creator, []*sim.Peer{other}, wl)
 		}
 		if err != nil {
 			return fw.Verdict{Status: fw.Inconclusive, What: "create: " + err.Error()}
